@@ -28,14 +28,20 @@ fn gen_pair<T: Elem>(rng: &mut Rng, n: usize, class: u64, bounds: &[T]) -> (Vec<
     for i in 0..n {
         let (x, y): (T, T) = if T::FLOAT {
             match class {
-                0 => (vals::scaled_float(rng, ea - 2, ea + 2), vals::scaled_float(rng, eb - 2, eb + 2)),
-                1 => (vals::scaled_float(rng, elo, ehi), vals::scaled_float(rng, elo, ehi)),
+                0 => (
+                    vals::scaled_float(rng, ea - 2, ea + 2),
+                    vals::scaled_float(rng, eb - 2, eb + 2),
+                ),
+                1 => (
+                    vals::scaled_float(rng, elo, ehi),
+                    vals::scaled_float(rng, elo, ehi),
+                ),
                 // parallel / anti-parallel: b = +-2^k a (exact)
                 2 | 3 => {
                     let x: T = vals::scaled_float(rng, ea - 2, ea + 2);
                     let s = if class == 2 { 1.0 } else { -1.0 };
                     (x, T::from_f64(s * x.to_f64() * 2f64.powi(eb - ea)))
-                },
+                }
                 // orthogonal-ish: disjoint supports
                 4 => {
                     if i % 2 == 0 {
@@ -43,7 +49,7 @@ fn gen_pair<T: Elem>(rng: &mut Rng, n: usize, class: u64, bounds: &[T]) -> (Vec<
                     } else {
                         (T::zero(), vals::scaled_float(rng, eb - 2, eb + 2))
                     }
-                },
+                }
                 5 => (T::zero(), vals::scaled_float(rng, eb - 2, eb + 2)),
                 6 => (vals::scaled_float(rng, ea - 2, ea + 2), T::from_f64(-0.0)),
                 7 => (T::zero(), T::from_f64(-0.0)),
@@ -52,26 +58,42 @@ fn gen_pair<T: Elem>(rng: &mut Rng, n: usize, class: u64, bounds: &[T]) -> (Vec<
         } else {
             match class {
                 0 => (vals::small_int::<T>(rng, 3), vals::small_int::<T>(rng, 3)),
-                1 => (vals::random_bits::<T>(rng, false), vals::random_bits::<T>(rng, false)),
+                1 => (
+                    vals::random_bits::<T>(rng, false),
+                    vals::random_bits::<T>(rng, false),
+                ),
                 2 | 3 => {
                     let x = vals::small_int::<T>(rng, 5);
-                    (x, if class == 2 || !T::SIGNED { x } else { T::zero().w_sub(x) })
-                },
+                    (
+                        x,
+                        if class == 2 || !T::SIGNED {
+                            x
+                        } else {
+                            T::zero().w_sub(x)
+                        },
+                    )
+                }
                 4 => {
                     if i % 2 == 0 {
                         (vals::small_int::<T>(rng, 9), T::zero())
                     } else {
                         (T::zero(), vals::small_int::<T>(rng, 9))
                     }
-                },
+                }
                 5 => (T::zero(), vals::small_int::<T>(rng, 9)),
                 6 => (vals::small_int::<T>(rng, 9), T::zero()),
                 7 => (T::zero(), T::zero()),
                 // sparse boundary values: norms wrap, roots may be zero
                 _ => {
-                    let z = |rng: &mut Rng| if rng.chance(1, 3) { *rng.pick(bounds) } else { T::zero() };
+                    let z = |rng: &mut Rng| {
+                        if rng.chance(1, 3) {
+                            *rng.pick(bounds)
+                        } else {
+                            T::zero()
+                        }
+                    };
                     (z(rng), z(rng))
-                },
+                }
             }
         };
         a.push(x);
@@ -135,7 +157,8 @@ fn one_target<T: Elem>(ctx: &mut Ctx, t: Target<T>) {
     let mut rng = ctx.rng.split();
     let mut run = Run::new(ctx, t, pack);
     let go = |run: &mut Run<T>, a: Vec<T>, b: Vec<T>| {
-        let nontrivial = !a.is_empty() && (a.iter().any(|x| *x != T::zero()) || b.iter().any(|x| *x != T::zero()));
+        let nontrivial =
+            !a.is_empty() && (a.iter().any(|x| *x != T::zero()) || b.iter().any(|x| *x != T::zero()));
         let mut c: VecCall<T> = run.t.call().with_data(T::zero(), a, b);
         c.place = rotate_place(run.n);
         c.weight = 3;
@@ -168,7 +191,11 @@ fn one_target<T: Elem>(ctx: &mut Ctx, t: Target<T>) {
                 break;
             }
             let class = i as u64 % 9;
-            let len = if i % 3 == 0 { pack } else { 1 + rng.usize_below(pack) };
+            let len = if i % 3 == 0 {
+                pack
+            } else {
+                1 + rng.usize_below(pack)
+            };
             let len = t.r.dims.unwrap_or(len);
             let (a, b) = gen_pair::<T>(&mut rng, len, class, &bounds);
             go(&mut run, a, b);
